@@ -9,6 +9,7 @@
 (*   ml   (between the tokens of a rule object inside a multi-line annotation): blanks,       *)
 (*        tabs, line breaks                                                                   *)
 (*   il   (the same inside an inline annotation): blanks, tabs                                *)
+(*   en   (between the tokens of an enum rule): blanks, tabs, line breaks, // and /* */ comments *)
 (* The requirement (layer R): the filled text is accepted and means what the compact text    *)
 (* means - same AST (comments aside), same verdict on every probe document.                  *)
 (*   @@CASE {id, base, text}                                                                  *)
@@ -35,12 +36,24 @@ Schemas == <<
      Tk("additionalProperties", "ml"), Tk(":", "ml"), Tk("\"string\"", "ml"), Tk("}", "ml"), Tk("*/", "out"), Tk("\"p\"", "out"), Tk(":", "out"), Tk("1", "out"), Tk("}", "out") >>,
   \* an array of two annotated items, one per line
   << Tk("[", ""), Tk("\n", "out"), Tk("1", "il"), Tk(",", "il"), Tk("//", "il"), Tk("{", "il"), Tk("min", "il"), Tk(":", "il"), Tk("0", "il"), Tk("}", ""), Tk("\n", "out"),
-     Tk("\"x\"", "il"), Tk("//", "il"), Tk("{", "il"), Tk("minLength", "il"), Tk(":", "il"), Tk("1", "il"), Tk("}", ""), Tk("\n", "out"), Tk("]", "out") >>
+     Tk("\"x\"", "il"), Tk("//", "il"), Tk("{", "il"), Tk("minLength", "il"), Tk(":", "il"), Tk("1", "il"), Tk("}", ""), Tk("\n", "out"), Tk("]", "out") >>,
+  \* an or shortcut (blanks only around the bar) with an annotation, in an object
+  << Tk("{", ""), Tk("\n", "out"), Tk("\"a\"", "out"), Tk(":", "out"), Tk("@t", "il"), Tk("|", "il"), Tk("@k", "il"), Tk("//", "il"), Tk("{", "il"), Tk("optional", "il"), Tk(":", "il"), Tk("true", "il"), Tk("}", ""),
+     Tk("\n", "out"), Tk("}", "out") >>,
+  \* nested containers, an inline annotation on three of the lines
+  << Tk("{", "il"), Tk("//", "il"), Tk("{", "il"), Tk("additionalProperties", "il"), Tk(":", "il"), Tk("true", "il"), Tk("}", ""), Tk("\n", "out"),
+     Tk("\"a\"", "out"), Tk(":", "out"), Tk("{", ""), Tk("\n", "out"), Tk("\"x\"", "out"), Tk(":", "out"), Tk("1", "il"), Tk("//", "il"), Tk("{", "il"), Tk("optional", "il"), Tk(":", "il"), Tk("true", "il"), Tk("}", ""),
+     Tk("\n", "out"), Tk("}", "out"), Tk(",", "out"), Tk("\"b\"", "out"), Tk(":", "out"), Tk("[", "il"), Tk("//", "il"), Tk("{", "il"), Tk("maxItems", "il"), Tk(":", "il"), Tk("3", "il"), Tk("}", ""), Tk("\n", "out"),
+     Tk("1", "out"), Tk("]", "out"), Tk("}", "out") >>,
+  \* an enum RULE (rules/enum): its own scanner, its own comments
+  << Tk("[", "en"), Tk("1", "en"), Tk(",", "en"), Tk("\"a\"", "en"), Tk(",", "en"), Tk("null", "en"), Tk(",", "en"), Tk("2.5", "en"), Tk("]", "en") >>
 >>
+IsEnum(i) == i = 10
 Fillers(g) ==
   CASE g = "out" -> {" ", "\t", "\n", "\r\n", "\r", " # c\n", "#\n", " ### c ### ", "###\nc\n###\n", "  \n\n  "}
     [] g = "ml"  -> {" ", "\t", "\n", "\r\n", " \n\t"}
     [] g = "il"  -> {" ", "\t", "  \t"}
+    [] g = "en"  -> {" ", "\t", "\n", "\r\n", "\r", " // c\n", "//\n", " /* c */ ", "/*\nc\n*/", "\n\n  "}
     [] OTHER     -> {}
 \* what separates two tokens in the compact spelling (a blank where two tokens would otherwise run together)
 Glue(a, b) == IF a.g = "" THEN "" ELSE IF a.s \in {"//", "/*", "-"} \/ b.s \in {"//", "/*", "*/", "-"} THEN " " ELSE ""
@@ -57,5 +70,5 @@ Init == /\ sc \in DOMAIN Schemas
                                   fill = [NoFill(Schemas[sc]) EXCEPT ![i] = x, ![j] = y])
 Next == UNCHANGED <<sc, fill>>
 Spec == Init /\ [][Next]_<<sc, fill>>
-Emit == PrintT("@@CASE " \o ToJson([id |-> sc, base |-> Build(Schemas[sc], NoFill(Schemas[sc]), 1), text |-> Build(Schemas[sc], fill, 1)]))
+Emit == PrintT("@@CASE " \o ToJson([id |-> sc, kind |-> IF IsEnum(sc) THEN "enum" ELSE "schema", base |-> Build(Schemas[sc], NoFill(Schemas[sc]), 1), text |-> Build(Schemas[sc], fill, 1)]))
 =================================================================================
